@@ -258,6 +258,7 @@ def _limits(env):
 
 
 _abort_counts = {}
+_tripped = {}
 _abort_lock = None
 
 
@@ -310,6 +311,10 @@ def _run_chunk(binary, workload, seed, lo, hi, tier, extra, rundir, tag, timeout
     attempt = 0
     prefix = binary if isinstance(binary, list) else [binary]
     while cur < hi and attempt < 8:
+        if _tripped.get(workload):
+            # the same abort/hang was already confirmed several times in this run: verdict decided
+            out["skipped_after_repeated_abort"] = hi - cur
+            return out
         attempt += 1
         ev = os.path.join(rundir, "%s-%d-%d.jsonl" % (tag, cur, attempt))
         jr = os.path.join(rundir, "%s-%d-%d.journal" % (tag, cur, attempt))
@@ -331,6 +336,9 @@ def _run_chunk(binary, workload, seed, lo, hi, tier, extra, rundir, tag, timeout
         except Exception:
             k = cur
         tail = _stderr_tail(er)
+        if _tripped.get(workload):
+            out["skipped_after_repeated_abort"] = hi - k
+            return out
         # isolate
         ev1 = os.path.join(rundir, "%s-iso-%d.jsonl" % (tag, k))
         jr1 = os.path.join(rundir, "%s-iso-%d.journal" % (tag, k))
@@ -355,7 +363,8 @@ def _run_chunk(binary, workload, seed, lo, hi, tier, extra, rundir, tag, timeout
                                      (("was killed after a " + reason) if reason else ("died (%s)" % _classify_abort(rc, tail))),
                                      "stderr": tail})
         cur = k + 1
-        if sig and _note_abort("%s:%s" % (workload, sig)) > 3:
+        if sig and _note_abort("%s:%s" % (workload, sig)) >= 3:
+            _tripped[workload] = True
             # the same failure was already confirmed several times: the verdict is decided,
             # do not spend the isolation budget on every remaining chunk
             out["skipped_after_repeated_abort"] = hi - cur
